@@ -229,6 +229,9 @@ def base_plan(tier, seed, classes=('pess', 'opt', 'mcs'), opt_scripts=True, thre
             pr = fam(cls)
             if pr:
                 plan.append((cls, pr, par))
+        # seeded random schedules (any number of preemptions) of the 3-thread products complement the bounded search
+        if three:
+            plan.append((cls, programs.cross3(cls, CONV + ('X',), MODES3, MODES3, tag='r3'), dict(mode='random', max_exec=12 if q else 300)))
         if not q:
             plan.append((cls, programs.random_programs(cls, 40, seed), dict(pb=2, max_exec=4000)))
     return plan
@@ -655,6 +658,9 @@ def id_plan(tier, caps=None):
     plan = []
     for n in (caps or ((1, 2) if q else (1, 2, 3))):
         plan.append((n, id_programs(n, tier), dict(pb=2 if q else 3, max_exec=(6000 if n < 3 else 2500) if q else 25000)))
+        # schedules with many preemptions (a thread that loses two claim races in a row, ...) are out of reach of the
+        # preemption-bounded search: seeded random schedules of the same programs complement it
+        plan.append((n, id_programs(n, tier), dict(mode='random', max_exec=(1000 if n < 3 else 400) if q else 12000)))
     return plan
 
 
@@ -1143,9 +1149,11 @@ def check_c19(prop, tier, seed):
         for r in rs:
             if r['e'] == 'samp':
                 sd = seeds.setdefault(r['seed'], len(seeds) + 1)
-                h.append({'e': 'samp', 'sd': sd, 'k': r['k'], 'v': r['v'], 'threw': 0, 'bad': 0})
+                h.append({'e': 'samp', 'sd': sd, 'k': r['k'], 'v': r['v'], 'threw': 0, 'bad': 0, 'same': 1})
+            elif r['e'] == 'bytes':
+                h.append({'e': 'bytes', 'sd': 0, 'k': 0, 'v': '-', 'threw': 0, 'bad': 0, 'same': r['same']})
             else:
-                h.append({'e': 'cons', 'sd': 0, 'k': 0, 'v': '-', 'threw': r['threw'], 'bad': int(int(r['max']) < int(r['min']))})
+                h.append({'e': 'cons', 'sd': 0, 'k': 0, 'v': '-', 'threw': r['threw'], 'bad': int(int(r['max']) < int(r['min'])), 'same': 1})
             src.append(r)
         hists.append(h)
         origin.append(src)
@@ -1154,7 +1162,11 @@ def check_c19(prop, tier, seed):
     violations = []
     for r in rej[:8]:
         bad = origin[r['hist']][r['line']] if r['line'] < len(origin[r['hist']]) else {}
-        if bad.get('e') == 'cons':
+        if bad.get('e') == 'bytes':
+            d = ('%s<%s>(min=%s,max=%s,alpha=%s): sampling changed the bytes of the (const) generator object - it keeps hidden mutable state'
+                 % (bad.get('cls'), bad.get('ty'), bad.get('min'), bad.get('max'), bad.get('alpha')))
+            sig = ['bytes', 'cls:' + str(bad.get('cls'))]
+        elif bad.get('e') == 'cons':
             d = 'constructing %s<%s>(min=%s, max=%s) %s' % (bad.get('cls'), bad.get('ty'), bad.get('min'), bad.get('max'),
                                                              'threw' if bad.get('threw') else 'did not throw')
             sig = ['cons', 'cls:' + str(bad.get('cls'))]
@@ -1182,6 +1194,61 @@ def check_c19(prop, tier, seed):
     return {'level': 'other', 'violations': violations, 'coverage': cov,
             'assumptions': ['engines are std::mt19937_64 seeded from VERIF_SEED; concurrent sampling uses real threads without a '
                             'scheduler, so a data race on hidden mutable state is caught only if it manifests in the sampled run']}
+
+
+@register('C18')
+def check_c18(prop, tier, seed):
+    workdir = wdir(prop)
+    recs, crashed, out = run_zipf('c18', tier, seed, workdir)
+    tabs = [r for r in recs if r.get('e') == 'tab']
+    hists = [[t] for t in tabs]
+    rej, st = vlib.validate_until_clean(os.path.join(SPEC, 'ZipfCdfTrace.tla'), os.path.join(SPEC, 'cfg', 'ZipfCdfTrace.cfg'), hists,
+                                        workdir, 'zc', max_rounds=4, max_rejections=40)
+    violations = []
+    one = 1 << 30
+    for r in rej[:12]:
+        t = tabs[r['hist']]
+        why = []
+        ks, ap, ex = t['ks'], t['ap'], t['ex']
+        if ks and ks[-1] == t['n'] - 1 and ap[-1] != one:
+            why.append('approximate class: last bin is not exactly 1')
+        if t['hasex']:
+            if any(ex[j] > ex[j + 1] for j in range(len(ex) - 1)):
+                why.append('exact table decreases')
+            if ks and ks[-1] == t['n'] - 1 and ex[-1] != one:
+                why.append('exact class: last bin is not exactly 1')
+            if t['n'] <= 100 and t['apq'] != t['exq']:
+                why.append('n <= 100: approximate values differ from the exact ones')
+            if t['n'] >= 1000 and 0 <= t['a10'] <= 30 and ex:
+                j = max(range(len(ex)), key=lambda i: abs(ap[i] - ex[i]))
+                if abs(ap[j] - ex[j]) > 10737419:
+                    why.append('|approx - exact| = %.5f at bin %d' % (abs(ap[j] - ex[j]) / one, ks[j]))
+        if not why:
+            why.append('exact table deviates from Zipf\'s law (integer-exponent reference) or holds values outside [0, 1]')
+        violations.append({'desc': 'C18: <%s>(min=%s, n=%s, alpha=%s): %s' % (t['ty'], t['min'], t['n'], t['alpha'], '; '.join(why)),
+                           'signature': ['n:%s' % t['n'], 'alpha:%s' % t['alpha']] + [w.split(':')[0].split('=')[0].strip() for w in why],
+                           'replay': {'kind': 'zipf', 'record': {k: v for k, v in t.items() if k not in ('ks', 'ex', 'ap', 'ex13', 'exq', 'apq')}}})
+    if crashed:
+        violations.append({'desc': 'C18: the table driver crashed or timed out: ' + out[-300:], 'signature': ['crash'],
+                           'replay': {'kind': 'zipf', 'seed': seed, 'tier': tier}})
+    bins = sum(len(t['ks']) for t in tabs)
+    lawn = sum(1 for t in tabs if t['hasex'] and t['a10'] in (0, 10, 20, 30) and t['n'] <= 16)
+    cov = {'explanation': 'trace validation of recorded CDF tables against ZipfCdfTrace.tla: monotone exact table, last bin exactly 1 '
+                          '(both classes, every n), approximate = exact bit for bit when n <= 100, |approx - exact| <= 0.01 when n >= 1000 '
+                          'and 0 <= alpha <= 3 (every bin up to n = 5000, dense samples beyond), and Zipf\'s law itself recomputed by TLC in '
+                          'integer fixed-point arithmetic for integer alpha and n <= 16 (tolerance 0.5 %)',
+           'states': max(1, st['distinct']), 'transitions': max(1, st['states']), 'traces_validated_against_impl': len(tabs),
+           'evaluations': bins, 'distinct_nontrivial': len(tabs),
+           'rule': 'one parameter tuple (type, min, n, alpha) = one case with its whole table (or a dense sample of it); evaluations = bins compared',
+           'tables_checked_against_zipf_law_by_tlc': lawn,
+           'samples': [{k: (v[:6] if isinstance(v, list) else v) for k, v in tabs[i].items()} for i in range(0, len(tabs), max(1, len(tabs) // 3))][:3],
+           'rejected_tables': len(rej)}
+    return {'level': 'other', 'violations': violations, 'coverage': cov,
+            'assumptions': ['values are compared as fixed-point integers floor(cdf * 2^30) (exactly-1 and bit-equality tests are exact: 1.0 is '
+                            '2^30, equality uses the IEEE representation)',
+                            'the law itself is recomputed only where integer arithmetic can do it (alpha in {0,1,2,3}, n <= 16, 0.5 % tolerance); '
+                            'for other alpha the exact class is trusted as the reference of the approximate one; rounding-level accuracy of '
+                            'the exact class is not decided (no reals in TLA+/TLC)']}
 
 
 # ------------------------------------------------------------------------------------------------
